@@ -46,7 +46,7 @@ def bounds(tier):
 def cases(tier):
     shapes = ('one', 'two', 'adjacent', 'empty') if tier == 'quick' else ('one', 'two', 'adjacent', 'empty', 'three')
     out = [('sym', shape, gv) for shape in shapes for gv in ('mapping', 'object')]
-    out += [('nested', 0, 0), ('twice', 0, 0), ('uses', 0, 0), ('config', 0, 0)]
+    out += [('nested', 0, 0), ('twice', 0, 0), ('uses', 0, 0), ('config', 0, 0), ('ctxreuse', 0, 0)]
     return out
 
 
@@ -57,7 +57,7 @@ class GV:
 def make_harness(case, tier):
     kind = case[0]
     keylib.setup(full=True, hash_mode='auto')
-    return {'sym': sym, 'nested': nested, 'twice': twice, 'uses': uses, 'config': config}[kind](case)
+    return {'sym': sym, 'nested': nested, 'twice': twice, 'uses': uses, 'config': config, 'ctxreuse': ctxreuse}[kind](case)
 
 
 def sym(case):
@@ -112,7 +112,8 @@ def sym(case):
                 term = p_.t if isinstance(p_, Sym) else z3.StringVal(p_)
             exp = z3.Concat(exp, term)
         other = [1, None, 2.5, True]
-        inner = {'k': s, 'n': 7, 'lst': [s, other]}
+        import collections
+        inner = collections.OrderedDict([('k', s), ('n', 7), ('lst', [s, other])]) if ctx.flag('ordered_dict') else {'k': s, 'n': 7, 'lst': [s, other]}
         data = {'top': s, 'nested': [inner, [4, None]], 'num': 3}
         info = {'shape': shape, 'global_vars': gvform, 'parts': [p_ if not isinstance(p_, tuple) else {'group': p_[1]} for p_ in parts],
                 'valA': vA}
@@ -292,6 +293,34 @@ def config(case):
         s = t.params['p']
         ctx.check_concrete(isinstance(s, str) and s == expp and s + '!' == expp + '!' and s[:2] == expp[:2] and
                            s.split('/')[-1] == expp.split('/')[-1] and {s: 1}[expp] == 1, 'behaves-as-str', dict(info))
+    return harness
+
+
+def ctxreuse(case):
+    """one context (dict or Context object) with nested values under for_namespaces, used for two configs with
+    different global_vars: each config gets its own substitution and the caller's context keeps its placeholders"""
+    def harness(ctx):
+        from taskchain import Config
+        from taskchain.config import Context
+        fs = keylib.fresh_fs()
+        spec = [P('Show', params=[par('p', default='dp'), par('m', default=None)])]
+        data = {'p': '{ROOT}/g', 'for_namespaces': {'ns': {'m': {'deep': ['{ROOT}/x', {'k': '{ROOT}/y'}]}, 'p': '{ROOT}/n'}}}
+        as_obj = ctx.flag('context_object')
+        context = Context.prepare_context(copy.deepcopy(data)) if as_obj else copy.deepcopy(data)
+        out = []
+        for root in ('/first', '/second'):
+            cl = family.make_pipeline(spec)
+            mine = Config(fs.path('/data'), name='mine', namespace='ns', data={'tasks': list(cl.values())}, global_vars={'ROOT': root})
+            ch = keylib.chain(Config(fs.path('/data'), name='main', data={'uses': [mine]}, global_vars={'ROOT': root},
+                                     context=context), shared={})
+            t = ch.tasks['ns::show']
+            out.append((str(t.params['p']), str(t.params['m']['deep'][0]), str(t.params['m']['deep'][1]['k'])))
+        exp = [(f'{r}/n', f'{r}/x', f'{r}/y') for r in ('/first', '/second')]
+        ctx.check_concrete(out == exp, 'substituted=reference', {'context_object': as_obj, 'got': out, 'expected': exp})
+        src = context.for_namespaces['ns'] if as_obj else context['for_namespaces']['ns']
+        ctx.check_concrete(str(src['m']['deep'][0]) == '{ROOT}/x' and str(src['m']['deep'][1]['k']) == '{ROOT}/y',
+                           'substituted=reference', {'context_object': as_obj, 'what': 'the caller\'s context after use',
+                                                     'got': repr(src['m'])[:200]})
     return harness
 
 
